@@ -364,6 +364,26 @@ def cmd_check(a):
     sys.exit(rc)
 
 
+def cmd_replay(a):
+    """Re-run the check that produced a replay file with the recorded seed and tier (every random choice of a check derives
+    from VERIF_SEED, so the run is the same run) and say whether the recorded failing inputs / broken obligations recur."""
+    rp = json.load(open(a.path))
+    env = dict(os.environ, VERIF_SEED=str(rp.get("seed", 1)))
+    r = subprocess.run([sys.executable, os.path.abspath(__file__), "check", rp["property"], "--tier", rp.get("tier", "quick")],
+                       env=env, stdout=subprocess.PIPE, stderr=subprocess.STDOUT, text=True)
+    sys.stdout.write(r.stdout)
+    again = None
+    m = re.search(r"VIOLATION property=\S+ replay=(\S+)", r.stdout)
+    if m and os.path.exists(m.group(1)):
+        again = json.load(open(m.group(1)))
+    want = {f.get("what") for f in rp.get("failing_inputs", [])} | {b.get("obligation") for b in rp.get("no_longer_checks", [])}
+    got = set()
+    if again:
+        got = {f.get("what") for f in again.get("failing_inputs", [])} | {b.get("obligation") for b in again.get("no_longer_checks", [])}
+    print(f"REPLAY property={rp['property']} recorded={len(want)} reproduced={len(want & got)} new={len(got - want)}")
+    sys.exit(1 if got else 0)
+
+
 def main():
     ap = argparse.ArgumentParser()
     sub = ap.add_subparsers(dest="cmd", required=True)
@@ -372,6 +392,9 @@ def main():
     c.add_argument("prop")
     c.add_argument("--tier", choices=["quick", "thorough"])
     c.set_defaults(fn=cmd_check)
+    c = sub.add_parser("replay")
+    c.add_argument("path")
+    c.set_defaults(fn=cmd_replay)
     a = ap.parse_args()
     a.fn(a)
 
